@@ -20,8 +20,8 @@ from typing import Any, Callable, Optional
 VERIF = os.path.dirname(os.path.dirname(os.path.abspath(__file__)))
 REPO = os.environ.get("XONSH_PARSER_REPO", "/repo")
 VENV_PY = os.environ.get("XONSH_PARSER_PY", "/venv/bin/python")
-EVIDENCE_DIR = os.path.join(VERIF, "evidence")
-REPLAY_DIR = os.path.join(VERIF, "replays")
+EVIDENCE_DIR = os.environ.get("VERIF_EVIDENCE_DIR") or os.path.join(VERIF, "evidence")      # override: seed-matrix runs must not clobber the real evidence
+REPLAY_DIR = os.environ.get("VERIF_REPLAY_DIR") or os.path.join(VERIF, "replays")
 KNOWN_FINDINGS = os.path.join(VERIF, "known_findings.json")
 
 DISCHARGED, FAILED, UNDECIDED, KNOWN = "discharged", "failed", "undecided", "known-finding"
